@@ -25,13 +25,13 @@ def spell(r, b, lets, depth=0):
         body = '|%s|' % sep.join('%02x' % x if r.chance(1, 2) else '%02X' % x for x in b)
         if r.chance(1, 4) and len(body) > 2:
             cut = 1 + r.below(len(body) - 1)      # raw merging: a hex section may span two adjacent literals
-            return '"%s"%s"%s"' % (body[:cut], r.choice([' ', '\n  ']), body[cut:])
+            return '"%s"%s"%s"' % (body[:cut], r.choice([' ', '\n  ', ' # split "here\n  ', ' // |zz|\n']), body[cut:])
         return '"%s"' % body
     if k == 2 and len(b) >= 2:
         i = r.below(len(b) + 1)
         x, y = spell(r, b[:i], lets, depth + 1), spell(r, b[i:], lets, depth + 1)
         if x.startswith('"') and x.endswith('"') and y.startswith('"') and y.endswith('"') and r.chance(2, 3):
-            return x + r.choice([' ', '\n    ', '  \n']) + y        # adjacent literals merge lexically
+            return x + r.choice([' ', '\n    ', '  \n', ' # part "1\n    ', '// c\n', ' //x|00|\n\n  ']) + y        # adjacent literals merge lexically (comments and blank lines between them are skipped)
         return 'text::concat(%s, %s)' % (x, y)
     if k == 3 and depth < 3:
         n = 1 + r.below(3)
@@ -126,9 +126,11 @@ def one(c, r, name, hdr, mk, b, i, typed=None):
             nm = 'l%d' % len(lets); lets.append('let %s = %s;' % (nm, parts[1])); parts[1] = nm
         e = ', '.join(parts) if r.chance(1, 2) else 'text::concat(%s)' % ', '.join(parts)
         c.count('typed-constants-as-bytes', len(typed))
+    remark = r.chance(1, 6)
+    if remark: e = e + r.choice([' # the payload\n', ' // "quoted" remark\n    ', '\n'])     # a remark after the last argument, the call closed on the next line
     decl, stmt = mk(e, False)
     src = (HEAD + '\n'.join(lets) + '\n' + decl + '\n' + stmt + '\n').encode('utf-8')
-    if i % 7 == 5 and len(src) < 20000:
+    if i % 7 == 5 and len(src) < 20000 and not remark and '#' not in e and '//' not in e:
         from ..gen import Lib, name_mandatory
         src = name_mandatory(src, Lib(), r, (2, 3))
     impl, model = progdiff.run_both(c, src)
